@@ -38,6 +38,7 @@ package benchfmt
 //@              forall j int :: 1 <= j < len(parts[k]) ==> isdigit(parts[k][j]))
 //@   ensures forall j int :: 0 <= j < len(baseName) ==> n[j] != '/'
 //@   ensures (exists k int :: gomaxprocsAt(n, k)) <==> (len(parts) > 0 && parts[len(parts)-1][0] == '-')
+//@   ensures forall p int :: 0 <= p < len(n) && n[p] == '/' ==> exists k int :: 0 <= k < len(parts) && off(parts[k]) == off(n)+p
 //@   ensures forall k int, j int :: 0 <= k < len(parts) && 1 <= j < len(parts[k]) ==> parts[k][j] != '/'
 //@   loop 1:
 //@     invariant 0 <= prev <= idx() <= len(buf)
@@ -53,6 +54,7 @@ package benchfmt
 //@     invariant len(nameParts) == 0 ==> idx() == 0 || buf[0] != '/'
 //@     invariant len(nameParts) > 0 ==> forall j int :: 0 <= j < len(nameParts[0]) ==> buf[j] != '/'
 //@     invariant forall m int, j int :: 1 <= m < len(nameParts) && 1 <= j < len(nameParts[m]) ==> nameParts[m][j] != '/'
+//@     invariant forall p int :: 0 <= p < prev && buf[p] == '/' ==> exists k int :: 1 <= k < len(nameParts) && off(nameParts[k]) == off(buf)+p
 //@     decreases len(buf) - idx()
 
 //@ pure func gomaxprocsAt(n []byte, k int) bool = 0 <= k && k+1 < len(n) && n[k] == '-' &&
